@@ -12,6 +12,7 @@ fn scalar_choice(p: &mut Prng, i: u64) -> BigUint {
     let n = &r9::params().n;
     match i % 9 {
         7 => sparse_scalar(p, 1 + (i / 9) % 14),
+        8 => crate::sm2x::run_scalar(p, n),
         0 => BigUint::one(),
         1 => BigUint::from(2u32),
         2 => BigUint::from(3u32),
